@@ -58,6 +58,32 @@ def extra_files():
     bin_ = b'delta 14\nzcmZ?wbhEHbabc\nxyz\x00\xff\r\nmore\n\nlast line\n'
     txt = b'first line\nsecond line\nthird\n'
     js = b'{"path": "f"}\n'
+    # stateful codecs (shift sequences): a decoder silently drops a complete
+    # shift sequence at the end of its input, so only the raw bytes show
+    # that a line is incomplete
+    for codec in ('iso2022_jp', 'utf-7', 'iso2022_kr', 'hz'):
+        try:
+            t1 = 'Fix the parser\n\u65e5\u672c\u8a9e\u306e\u8aac\u660e\n' \
+                 'plain\n\u8a9e tail\n'
+            if codec in ('iso2022_kr',):
+                t1 = 'Fix\n\ud55c\uad6d\uc5b4 text\nplain\n\ud55c\n'
+            if codec == 'hz':
+                t1 = 'Fix\n\u4e2d\u6587 text\nplain\n\u4e2d\n'
+            b1 = t1.encode(codec)
+            if b1.decode(codec) != t1 or not b1.endswith(b'\n'):
+                continue
+        except Exception:
+            continue
+        js = b'{"path": "f"}\n'
+        out.append(('stateful-%s' % codec,
+                    b'#diffx: encoding=utf-8, version=1.0\n'
+                    b'#.preamble: encoding=%s, length=%d\n%s'
+                    b'#.change: encoding=%s\n'
+                    b'#..preamble: length=%d\n%s'
+                    b'#..file:\n#...meta: encoding=utf-8, length=%d\n%s'
+                    b'#...diff: encoding=%s, length=%d\n%s'
+                    % (codec.encode(), len(b1), b1, codec.encode(), len(b1),
+                       b1, len(js), js, codec.encode(), len(b1), b1)))
     out.append(('foreign-minimal',
                 b'#diffx: version=1.0\n'
                 b'#.preamble: length=%d\n%s'
